@@ -14,6 +14,10 @@ ASSUME = c01.ASSUME + [
 
 def run(tier):
     gs = sugar.prec_grammars(K.seed())
+    if tier != "quick":
+        # more seeded operator tables (random level numbers, kinds, shuffled source order)
+        for extra in range(1, 8):
+            gs.append(sugar.prec_grammars(K.seed() + 100 * extra)[-1])
     return SP.run_lang(PID, tier, SP.lang_jobs(gs, tier), ASSUME)
 
 
